@@ -366,6 +366,27 @@ impl Prop for Ctors {
         };
         let Some(k) = specs.iter().position(|(n, _)| *n == mname) else {
             cx.label("message_names_a_receiver_field");
+            // e.g. set_month(2) on the 31st: "day must be in the range 1..=28, because ...": the
+            // rejected value is the receiver's own (local) field, which the stated range must exclude
+            if c.api == 9 || c.api == 10 {
+                let lf = if c.api == 9 { tl::fields(c.recv.i() + c.off as i128 * tl::NS) } else { tl::fields(c.recv.day as i128 * DAYNS) };
+                let kept = match mname.as_str() {
+                    "year" => Some(lf.year as i128),
+                    "month" => Some(lf.month as i128),
+                    "day" => Some(lf.dom as i128),
+                    _ => None,
+                };
+                if let Some(v) = kept {
+                    cx.nt("receiver_field_range_in_the_message_checked");
+                    if (lo..=hi).contains(&v) {
+                        return fail(
+                            &format!("{}.message_range_contains_rejected_value", sig),
+                            format!("{}: message {:?} names a range that excludes the receiver's {} = {} (the value that makes the requested date invalid)", what, msg, mname, v),
+                            "the stated range contains it".to_string(),
+                        );
+                    }
+                }
+            }
             return Verdict::Pass;
         };
         cx.nt("message_range_checked");
